@@ -43,7 +43,7 @@ def main():
             out["demo_patched"] = r.returncode
         for p in props:
             t0 = time.time()
-            env = dict(os.environ, VERIF_REPO=wt, VERIF_EVIDENCE_DIR=ev, VERIF_TIER=a.tier)
+            env = dict(os.environ, VERIF_REPO=wt, VERIF_EVIDENCE_DIR=ev, VERIF_TIER=a.tier, VERIF_MAX_JOB_S=os.environ.get("VERIF_MAX_JOB_S", "240"))
             try:
                 r = subprocess.run("cd %s && timeout 1800 python3-vt check.py %s --tier %s" % (V, p, a.tier), shell=True, capture_output=True, text=True, env=env, timeout=2000)
                 nv = len(re.findall(r"^VIOLATION property=", r.stdout, re.M))
